@@ -59,6 +59,10 @@ def run(tier, rep):
     if s["cases"] != r.replay_count or s["cases"] != r.distinct:
         raise c.ToolError("C15: %d states but %d replay cases / %d replayed" % (r.distinct, r.replay_count, s["cases"]))
     for m in c.read_ndjson(mm):
+        if m.get("item_type"):
+            rep.violation(m, "merge_necessity(%s, %s) is %s for i64 items but differs when the items are %s" % (
+                short(m["vec"]), short(m["other"]), short(m["expected"]), m["item_type"]))
+            continue
         rep.violation(m, "merge_necessity(%s, %s) = %s, C15 requires %s" % (
             short(m["vec"]), short(m["other"]), short(m["actual"]), short(m["expected"])))
     allc = c.read_ndjson(cases)
@@ -115,6 +119,10 @@ def replay(obj, rep):
     mm = os.path.join(c.OUT, "cases", "C15.replay.mismatch.ndjson")
     c.harness(["merge-replay", "--cases", cases, "--mismatches", mm])
     for m in c.read_ndjson(mm):
+        if m.get("item_type"):
+            rep.violation(m, "merge_necessity(%s, %s) is %s for i64 items but differs when the items are %s" % (
+                short(m["vec"]), short(m["other"]), short(m["expected"]), m["item_type"]))
+            continue
         rep.violation(m, "merge_necessity(%s, %s) = %s, C15 requires %s" % (
             short(m["vec"]), short(m["other"]), short(m["actual"]), short(m["expected"])))
     rep.add(evaluations=1, distinct_nontrivial=1, samples=[obj], states=1, transitions=1,
